@@ -248,6 +248,12 @@ func (w *worker) emit(cs *caseT) {
 	if out.RejectExpected {
 		r.Notes["rejection-expected"]++
 	}
+	if out.RetainedChecked {
+		r.Notes["retained-checked"]++
+		if out.RetainedGrew {
+			r.Notes["retained-grew"]++
+		}
+	}
 	if out.DroveRounds > 0 {
 		r.Notes["drive-on-cases"]++
 		r.Notes["drive-on-rounds"] += int64(out.DroveRounds)
